@@ -1077,6 +1077,10 @@ def gen_simple1_scenario(rng, tier, ending=None):
         ops.append((11, 0, False))
         ops.append((11, 0, True))
     else:
+        # a Handle call is in progress (and honours its context only after `linger`) when the pending graceful stop is interrupted
+        ops.append((1, ps[0], True))
+        nput += 1
+        linger = rng.choice([50, 1000, 1000])
         ops.append((10, 0, True))
         ops.append((11, 0, True))
     if not ending.startswith("graceful") and ending != "double-graceful":
@@ -1152,6 +1156,14 @@ def monitor_simple1(kind):
                     fails.append("GracefulStop() returned while %d Handle calls were running" % rows[gi][0])
                 if rows[gi][1] != m["nput"]:
                     fails.append("GracefulStop() returned with %d of %d items handled" % (rows[gi][1], m["nput"]))
+        if kind == "C07" and m["ending"] == "stop-during-graceful":
+            # a pending GracefulStop() interrupted by Stop(): when GracefulStop() returns the discipline has terminated, i.e. no Handle
+            # call is running any more
+            gi = next((i for i, r in enumerate(rows) if r[4] > 0), None)
+            if gi is not None and rows[gi][0] != 0:
+                fails.append("GracefulStop() returned while %d Handle calls were running (after Stop() during the pending graceful stop)" % rows[gi][0])
+            if extra[2] > 0:
+                fails.append("%d Handle calls were running at the moment GracefulStop() / Stop() returned" % extra[2])
         if kind == "C16" and m["ending"] in ("stop", "cancel", "double-stop", "stop-during-graceful"):
             if last[2] != 1 or noterm:
                 fails.append("%s did not terminate the discipline" % m["ending"])
